@@ -28,6 +28,10 @@ import AY.Lemmas.C07PipeFold
 namespace AY
 open AY.C07P
 
+/-- a stage of the examples: the tree the loader builds for a document -/
+def c07pStage (env : Env) (r : Raw) : Node :=
+  match construct env r with | .ok n => n | .error _ => .leaf {} .required
+
 /-! ### (a) the loader -/
 
 /- "read from a source added with safe=False": `Builder.add_source(…, safe=False)` parses the document
@@ -80,6 +84,29 @@ example : ∃ t n, construct {} c07pDocB = .ok t ∧ getNode t [.str "u"] = some
     (getNode n [.str "l", .int 0]).map (fun m => eSafe m.flags) = some false ∧
     (getNode t [.str "s"]).map (fun m => eSafe m.flags) = some true := ⟨_, _, rfl, rfl, rfl, rfl, rfl, rfl⟩
 
+/- "marked !unsafe", when the tagged value is ALREADY a node: `a: !unsafe ~` (an explicit null is an existing
+   `ConfigNone` node that the tag constructor hands to `ConfigNode(value, safe=False)`; only the inheritable keywords
+   used to reach it, D49) keeps the mark, wherever it stands.  The same code path serves `a: !unsafe f'{…}'` (the
+   implicit f-string resolver returns a node before the tag is applied): that document is NOT representable as a `Raw`
+   (a `.plain` tag on text builds a string scalar; `.fstr` is the explicit `!fstr` tag, whose keywords go to the
+   constructor), and the evaluator model treats f-strings as unsupported — the f-string half of D49 is covered by the
+   harness only (oracle-only family of C07). -/
+theorem C07_unsafe_mark_on_existing_node (env : Env) (parent : Option (Flags × CompKind)) (kw : CtorKw) (n : Node)
+    (hk : kw.safe = some false) (h : constructTD env parent (.scalar .plain kw (.lit .null)) = .ok n) :
+    n.flags.safe = some false ∧ eSafe n.flags = false := by
+  simp only [constructTD, wrapScalar, hk, if_true, Except.ok.injEq] at h
+  have hs : n.flags.safe = some false := by
+    subst h
+    cases parent with
+    | none => rfl
+    | some pr =>
+      simp only [adoptBy, adopt, inheritInto]
+      cases childKw pr.1 pr.2 <;> rfl
+  exact ⟨hs, by simp [eSafe, hs]⟩
+
+example : construct {} (.map .none {} [(.str "a", .scalar .plain { safe := some false, prio := some 1 } (.lit .null))]) =
+    .ok (.comp {} .dict [(.str "a", .leaf { prio := some 1, safe := some false } (.scalar .null))]) := rfl
+
 /-! ### (b) adoption never heals -/
 
 /- "Merging can only spread unsafety": a tree that is unsafe throughout stays unsafe throughout when it
@@ -106,11 +133,11 @@ example : allUnsafe (.comp { iSafe := some false } (.call "f") [(.str "a", .leaf
 
 /- the flags of the node `on_merge` returns are always one of the three combinations of `_replace_self`
    / `_replace_other` — whichever of the twelve class pairings, priorities, delete modes and promotions
-   apply.  All three run `mergeSafe`, so an explicit `safe=False` (`markS`) and a source-level
+   apply — with `_safe = False` on top when an unsafe node was promoted (`C07_promotion_keeps_unsafety`).  All three run `mergeSafe`, so an explicit `safe=False` (`markS`) and a source-level
    `safe=False` (`markD`) on EITHER node is on the result, and the result is unsafe. -/
 theorem C07_merge_result_flags (fuel : Nat) (s o r : Node) (b : Bool) (h : mergeF fuel s o = .ok (r, b)) :
-    (r.flags = replaceOtherFlags s.flags o.flags ∨ r.flags = replaceSelfFlags s.flags o.flags ∨
-      r.flags = replaceOtherFlags o.flags s.flags) ∧
+    (∃ g, (g = replaceOtherFlags s.flags o.flags ∨ g = replaceSelfFlags s.flags o.flags ∨
+        g = replaceOtherFlags o.flags s.flags) ∧ (r.flags = g ∨ r.flags = { g with safe := some false })) ∧
     (markS s.flags = true ∨ markS o.flags = true → markS r.flags = true) ∧
     (markD s.flags = true ∨ markD o.flags = true → markD r.flags = true) ∧
     (markS s.flags = true ∨ markS o.flags = true ∨ markD s.flags = true ∨ markD o.flags = true →
@@ -221,6 +248,49 @@ example : ∃ r b, mergeF 3 (.comp {} .dict [(.str "a", .comp {} (.call "f") [(.
     getNode r [.str "a", .str "m"] = some (.leaf { prio := some 1, safe := some false, iDel := some true } (.scalar (.int 5))) :=
   ⟨_, _, rfl, rfl⟩
 
+/-! ### (c″) promotion -/
+
+/- "Merging can only spread unsafety, never remove it", for `_maybe_promote`: when `other` is promoted — returned
+   in place of `self`, cleared, refilled with `self`'s content and given `self.__dict__` (a function or path node
+   taking over the content of the plain container that replaces it) — and it was unsafe, BY WHATEVER CAUSE (an
+   explicit mark, its source, or only the sticky inherited `_implicit_safe = False` of a node that `!prev` moved out
+   from under an `!unsafe` mapping), the node returned is unsafe and carries an explicit `safe=False`.  History:
+   `other.__dict__.update(self.__dict__)` overwrote every flag of the promoted node with the safe container's
+   (reported by a seeding author, D50); the library was repaired (`was_unsafe = not other.ayns.safe` … `other._safe =
+   False`), the model follows (`promotedFlags`), the translated `_maybe_promote` is proved equal (`TIE_maybePromote`). -/
+theorem C07_promotion_keeps_unsafety (sf : Flags) (sk : CompKind) (scs : List (Key × Node)) (o r : Node)
+    (h : maybePromote sf sk scs o = .ok (r, false)) :
+    r.flags = promotedFlags sf o.flags ∧ eSafe r.flags = (eSafe sf && eSafe o.flags) ∧
+    (eSafe o.flags = false → eSafe r.flags = false ∧ r.flags.safe = some false) := by
+  have hf : r.flags = promotedFlags sf o.flags := by simpa using maybePromote_flags h
+  refine ⟨hf, by rw [hf, eSafe_promotedFlags], fun ho => ⟨by rw [hf, eSafe_promotedFlags, ho]; simp, ?_⟩⟩
+  rw [hf]; simp [promotedFlags, ho]
+
+/-- the moved call node of the witness: unsafe only through its inherited flag -/
+def c07pMovedCall : Node := .comp { del := some true, iSafe := some false } (.call "f") [(.str "x", .leaf { iDel := some true, iSafe := some false } (.scalar (.int 1)))]
+
+example : ∃ r, maybePromote {} .dict [] c07pMovedCall = .ok (r, false) ∧ r.flags = { safe := some false } := ⟨_, rfl, rfl⟩
+
+/- the three-stage witness `a: !unsafe {c: !call:f {x: 1}}`, `b: !prev a.c`, `b: !del {}` ends in UnsafeError
+   (it ran `f` before the repair) -/
+example : (match flatten [
+      c07pStage {} (.map .none {} [(.str "a", .map .plain { safe := some false } [
+        (.str "c", .map (.call "f") {} [(.str "x", .scalar .none {} (.lit (.int 1)))])])]),
+      c07pStage {} (.map .none {} [(.str "b", .scalar .prev {} (.text "a.c"))]),
+      c07pStage {} (.map .none {} [(.str "b", .map .plain { del := some true } [])])] with
+    | .ok r => ((getNode r [.str "b"]).map (fun n => (dynWhat n, n.flags.safe, eSafe n.flags)),
+                match evaluate c07ExWorld r with | .error .unsafeE => true | _ => false)
+    | .error _ => (none, false)) = (some (some "call:f", some false, false), true) := by decide +kernel
+
+/- the old `_maybe_promote` as a mutant of the model (`maybePromoteOld`: the promoted node has exactly `self`'s
+   flags): the moved call node comes out SAFE, so `C07_promotion_keeps_unsafety` is false of it -/
+theorem C07_promotion_mutant_counterexample :
+    eSafe c07pMovedCall.flags = false ∧
+    ∃ r, maybePromoteOld {} .dict [] c07pMovedCall = .ok (r, false) ∧ eSafe r.flags = true ∧ dynWhat r = some "call:f" :=
+  ⟨by decide, _, rfl, by decide, rfl⟩
+
+example : maybePromoteOld {} .dict [] c07pMovedCall = .ok (.comp {} (.call "f") [], false) := rfl
+
 /-! ### (d) the pre-merge operators -/
 
 /- "no ordering or shape of safe stages before or after makes an unsafe dynamic node run", for `!append` and
@@ -327,8 +397,6 @@ def c07pU : Raw := .map .none {} [
 def c07pS2 : Raw := .map .none {} [
   (.str "l", .seq .append {} [.scalar .none {} (.lit (.int 2))]),
   (.str "n", .seq .append {} [.scalar .none {} (.lit (.int 3))])]
-def c07pStage (env : Env) (r : Raw) : Node :=
-  match construct env r with | .ok n => n | .error _ => .leaf {} .required
 def c07pUEnv : Env := { dSafe := false, src := some "u.yaml" }
 def c07pStages : List Node := [c07pStage {} c07pS1, c07pStage c07pUEnv c07pU, c07pStage {} c07pS2]
 def c07pRoot : Node := match flatten c07pStages with | .ok r => r | .error _ => .leaf {} .required
